@@ -92,43 +92,44 @@ type SMTask struct {
 }
 
 type SState struct {
-	Src          map[string][]byte                    `json:"src"`
-	MetaEtcd     map[string][]byte                    `json:"meta_etcd,omitempty"`
-	MetaSQL      map[string]map[string]map[string]any `json:"meta_sql,omitempty"`
-	SDK          []*SDKState                          `json:"sdk"`
-	Logs         map[string][]*REntry                 `json:"logs"`
-	HistPos      int                                  `json:"hist_pos"`
-	OpPos        int                                  `json:"op_pos"`
-	Faults       map[string]int                       `json:"faults"`
-	Crashes      int                                  `json:"crashes"`
-	Steps        int                                  `json:"steps"`
-	OpLog        []SOpRec                             `json:"op_log"`
-	Regs         []SRegRec                            `json:"regs"`
-	Tasks        map[string]*SMTask                   `json:"tasks"`
-	Viol         []Violation                          `json:"viol,omitempty"`
-	Probes       map[string]int                       `json:"probes,omitempty"`
-	Stats        map[string]int                       `json:"stats,omitempty"`
-	Frozen       map[string]string                    `json:"frozen,omitempty"` // task/coll -> canonical positions once dropped
-	LogHits      []string                             `json:"log_hits,omitempty"`
-	Rewritten    map[string]bool                      `json:"rewritten,omitempty"`     // task records written again after their deletion
-	RewrittenPos map[string]bool                      `json:"rewritten_pos,omitempty"` // checkpoints written again after the deletion of their task
-	Ambiguous    map[string]bool                      `json:"ambiguous,omitempty"`     // tasks hit by a store write that was applied but reported as failed
-	InFlight     int                                  `json:"in_flight"`               // index of the operator request in flight at the crash, -1 none
-	Domain       map[string]int                       `json:"domain,omitempty"`        // "task|target|collection|shard" -> index into the pchannel log where the replication domain of that stream starts
-	PosRace      map[string]bool                      `json:"pos_race,omitempty"`      // "task/collection" -> two read-modify-write cycles on that checkpoint record overlapped
-	TimeSkipped  map[string][]int64                   `json:"time_skipped,omitempty"`  // domain key -> tags dropped by a resume through the re-stamped checkpoint time
-	Overtaken    map[string][]int64                   `json:"overtaken,omitempty"`     // domain key -> tags whose forwarded pack was overtaken by the checkpoint of their source channel
-	Rejected     []SRejRec                            `json:"rejected,omitempty"`      // downstream write rejections attributed to a task
-	Down         map[int]bool                         `json:"down,omitempty"`          // downstreams that currently reject every write
-	BadPack      map[string]bool                      `json:"bad_pack,omitempty"`      // packs (by call key) the downstream refuses on every attempt
-	LockOrder    map[string][][4]uint64               `json:"lock_order,omitempty"`    // C03 runs: downstream channel -> (incarnation, closing tick, end message id, step) of every pack in the order they were computed under the channel lock
-	CkptHist     map[string][][2]int64                `json:"ckpt_hist,omitempty"`     // C03 runs: "task|collection|source pchannel" -> (message id, time in ms) of every version of the stored checkpoint, in the order they were seen
-	StaleAck     map[string]bool                      `json:"stale_ack,omitempty"`     // "target|collection|shard" -> a pack of an earlier registration was acknowledged after the stream had been registered again
-	Forwarded    map[string][][2]int                  `json:"forwarded,omitempty"`     // "collection|source pchannel" -> (start, end] message-id ranges of packs that took the forward path (hook H15)
-	MsgCalls     int                                  `json:"msg_calls"`               // running number of drop-message store calls
-	ConnCalls    int                                  `json:"conn_calls"`              // running number of message-queue connection checks
-	Overlap      map[string]bool                      `json:"overlap,omitempty"`       // tasks whose record was being updated by a background transition (failure pause) while an operator request on the same task was in flight
-	SimSecs      float64                              `json:"sim_secs"`
+	Src           map[string][]byte                    `json:"src"`
+	MetaEtcd      map[string][]byte                    `json:"meta_etcd,omitempty"`
+	MetaSQL       map[string]map[string]map[string]any `json:"meta_sql,omitempty"`
+	SDK           []*SDKState                          `json:"sdk"`
+	Logs          map[string][]*REntry                 `json:"logs"`
+	HistPos       int                                  `json:"hist_pos"`
+	OpPos         int                                  `json:"op_pos"`
+	Faults        map[string]int                       `json:"faults"`
+	Crashes       int                                  `json:"crashes"`
+	Steps         int                                  `json:"steps"`
+	OpLog         []SOpRec                             `json:"op_log"`
+	Regs          []SRegRec                            `json:"regs"`
+	Tasks         map[string]*SMTask                   `json:"tasks"`
+	Viol          []Violation                          `json:"viol,omitempty"`
+	Probes        map[string]int                       `json:"probes,omitempty"`
+	Stats         map[string]int                       `json:"stats,omitempty"`
+	Frozen        map[string]string                    `json:"frozen,omitempty"` // task/coll -> canonical positions once dropped
+	LogHits       []string                             `json:"log_hits,omitempty"`
+	Rewritten     map[string]bool                      `json:"rewritten,omitempty"`       // task records written again after their deletion
+	RewrittenPos  map[string]bool                      `json:"rewritten_pos,omitempty"`   // checkpoints written again after the deletion of their task
+	Ambiguous     map[string]bool                      `json:"ambiguous,omitempty"`       // tasks hit by a store write that was applied but reported as failed
+	InFlight      int                                  `json:"in_flight"`                 // index of the operator request in flight at the crash, -1 none
+	Domain        map[string]int                       `json:"domain,omitempty"`          // "task|target|collection|shard" -> index into the pchannel log where the replication domain of that stream starts
+	PosRace       map[string]bool                      `json:"pos_race,omitempty"`        // "task/collection" -> two read-modify-write cycles on that checkpoint record overlapped
+	NoCkptSkipped map[string][]int64                   `json:"no_ckpt_skipped,omitempty"` // domain key -> tags skipped by a restart before the first checkpoint of a collection that existed downstream before the task
+	TimeSkipped   map[string][]int64                   `json:"time_skipped,omitempty"`    // domain key -> tags dropped by a resume through the re-stamped checkpoint time
+	Overtaken     map[string][]int64                   `json:"overtaken,omitempty"`       // domain key -> tags whose forwarded pack was overtaken by the checkpoint of their source channel
+	Rejected      []SRejRec                            `json:"rejected,omitempty"`        // downstream write rejections attributed to a task
+	Down          map[int]bool                         `json:"down,omitempty"`            // downstreams that currently reject every write
+	BadPack       map[string]bool                      `json:"bad_pack,omitempty"`        // packs (by call key) the downstream refuses on every attempt
+	LockOrder     map[string][][4]uint64               `json:"lock_order,omitempty"`      // C03 runs: downstream channel -> (incarnation, closing tick, end message id, step) of every pack in the order they were computed under the channel lock
+	CkptHist      map[string][][2]int64                `json:"ckpt_hist,omitempty"`       // C03 runs: "task|collection|source pchannel" -> (message id, time in ms) of every version of the stored checkpoint, in the order they were seen
+	StaleAck      map[string]bool                      `json:"stale_ack,omitempty"`       // "target|collection|shard" -> a pack of an earlier registration was acknowledged after the stream had been registered again
+	Forwarded     map[string][][2]int                  `json:"forwarded,omitempty"`       // "collection|source pchannel" -> (start, end] message-id ranges of packs that took the forward path (hook H15)
+	MsgCalls      int                                  `json:"msg_calls"`                 // running number of drop-message store calls
+	ConnCalls     int                                  `json:"conn_calls"`                // running number of message-queue connection checks
+	Overlap       map[string]bool                      `json:"overlap,omitempty"`         // tasks whose record was being updated by a background transition (failure pause) while an operator request on the same task was in flight
+	SimSecs       float64                              `json:"sim_secs"`
 	// C04 on the whole server
 	DropSeenLast map[string][2]int `json:"drop_seen_last,omitempty"` // same key -> (incarnation, step) of the latest such delivery
 	DropSeen     map[string][2]int `json:"drop_seen,omitempty"`      // "target|collection|shard" -> (incarnation, step) at which the drop message was first delivered to a stream of that downstream
@@ -439,6 +440,21 @@ func (r *RigS) loadState() {
 		}
 		st.Crashes = r.sc.Knobs.Crashes
 		st.SDK = []*SDKState{NewSDKState(), NewSDKState()}
+		for i, sd := range st.SDK {
+			for _, c := range r.sc.Colls {
+				if !c.Down {
+					continue
+				}
+				sd.NextID += 3
+				co := &SDKColl{DB: c.DB, Name: c.Name, ID: sd.NextID, Parts: map[string]*SDKPart{}}
+				for sh := 0; sh < c.Shard; sh++ {
+					co.VCh = append(co.VCh, vchan(fmt.Sprintf("tgt%c-dml_%d", 'a'+i, sh), co.ID, sh))
+				}
+				sd.NextID++
+				co.Parts["_default"] = &SDKPart{ID: sd.NextID}
+				sd.Colls[c.DB+"/"+c.Name] = co
+			}
+		}
 		st.Logs = map[string][]*REntry{replicateChan: nil}
 		for i := 0; i < r.sc.Knobs.ChannelNum; i++ {
 			st.Logs[srcPCh(i)] = nil
@@ -461,6 +477,9 @@ func (r *RigS) loadState() {
 	}
 	if st.Overtaken == nil {
 		st.Overtaken = map[string][]int64{}
+	}
+	if st.NoCkptSkipped == nil {
+		st.NoCkptSkipped = map[string][]int64{}
 	}
 	if st.TimeSkipped == nil {
 		st.TimeSkipped = map[string][]int64{}
